@@ -14,27 +14,32 @@ ASSUMPTIONS = ['E-SSL: SSLContext.wrap_socket enforces verify_mode / check_hostn
                'openssl honours subjectAltName and -CA/-CAkey',
                'handshake, chain building, expiry, the leaf actually issued and the on-disk certificate cache are NOT covered']
 HS = {'hs_verify_mode': 'int', 'hs_check_hostname': 'bool', 'hs_server_hostname': ('opt', 'str'),
-      'hs_cafile': ('opt', 'str'), 'handshakes': 'int'}
+      'hs_cafile': ('opt', 'str'), 'handshakes': 'int', 'hs_extra_trust': 'bool'}
 
 
 def add_ssl(reg):
     import ssl
     import z3
     reg.klass('SSLContext', py=None, fields={'cafile': ('opt', 'str'), 'check_hostname': 'bool', 'verify_mode': 'int',
-                                              'options': 'int'})
+                                              'options': 'int', 'extra_trust': 'bool'})
 
     def create_default_context(ex, st, args, kwargs, fr):
         ca = kwargs.get('cafile', NONE)
         ref = st.alloc(HObj('SSLContext', {'cafile': ca, 'check_hostname': VBool(True),
                                            'verify_mode': VInt(int(ssl.CERT_REQUIRED)),
-                                           'options': VInt(0)}, None))
+                                           'options': VInt(0), 'extra_trust': VBool(False)}, None))
         return ex.val(ref, st)
     reg.externs['ssl.create_default_context'] = create_default_context
+    # every SSLContext method that adds trust anchors beyond the cafile given at creation
+    for meth, params in (('load_default_certs', {'purpose': ('any',)}), ('set_default_verify_paths', {}),
+                         ('load_verify_locations', {'cafile': ('opt', 'str'), 'capath': ('opt', 'str'), 'cadata': ('any',)})):
+        reg.contract('<env>', 'SSLContext.' + meth, self_cls='SSLContext', assumed=True, params=params, modifies=['self.extra_trust'],
+                     ensures=['self.extra_trust'], raises={'OSError': []}, note='E-SSL: widens the set of trusted roots')
     reg.contract('<env>', 'SSLContext.wrap_socket', self_cls='SSLContext', assumed=True,
                  params={'sock': ('opaque', 'Socket'), 'server_hostname': ('opt', 'str')},
                  result=('opaque', 'Socket'), modifies=[], ghost_init=HS,
                  ensures=['hs_verify_mode == self.verify_mode', 'hs_check_hostname == self.check_hostname',
-                          'hs_server_hostname == server_hostname', 'hs_cafile == self.cafile',
+                          'hs_server_hostname == server_hostname', 'hs_cafile == self.cafile', 'hs_extra_trust == self.extra_trust',
                           'handshakes == old(handshakes) + 1'],
                  raises={'ssl.SSLCertVerificationError': ['handshakes == old(handshakes) + 1'],
                          'ssl.SSLError': ['handshakes == old(handshakes) + 1'],
@@ -66,6 +71,7 @@ def build(reg):
                  ('hostname-checked-unless-disabled',
                   '(verify_mode != 0 and not isnone(hostname)) ==> (hs_check_hostname and hs_server_hostname == hostname)'),
                  ('trust-store', 'hs_cafile == ca_file'),
+                 ('nothing-but-the-configured-ca-file-is-trusted', 'not hs_extra_trust'),
                  ('upgraded', 'not isnone(self._conn) and isinst_SSLSocket(self._conn)')],
         raises={'ssl.SSLError': [('one-handshake', 'handshakes == old(handshakes) + 1')],
                 'OSError': [('one-handshake', 'handshakes == old(handshakes) + 1')]}))
